@@ -183,6 +183,7 @@ pub fn committed_index(s: &mut Src, n_in: usize, n_out: usize, groups: bool) {
     }
     assert!(r == if ri < ro { ri } else { ro }, "joint index must be the minimum of both halves");
     // ---- group commit
+    let mut saw_lowered = n_in < 3 || !groups;
     if groups {
         let (rg, _) = jc.committed_index(true, &t);
         assert!(rg <= r, "group commit exceeds the plain quorum index");
@@ -198,9 +199,10 @@ pub fn committed_index(s: &mut Src, n_in: usize, n_out: usize, groups: bool) {
             if all && !two {
                 assert!(gi == ri && !fi, "single group behaves like plain quorum commit");
             }
-            vcover!(n_in < 3 || (all && two && gi < ri), "group commit lowered the index");
+            saw_lowered = saw_lowered || (all && two && gi < ri);
         }
     }
+    vcover!(saw_lowered, "group commit lowered the index (where the shape admits it)");
     vcover!(n_in == 0 || n_out == 0 || (ri < ro && r > 0), "incoming half decides");
     vcover!(n_in == 0 || n_out == 0 || ro < ri, "outgoing half decides");
     vcover!(r > 0 || (n_in == 0 && n_out == 0), "positive index");
